@@ -220,6 +220,25 @@ Proof.
     apply String.eqb_eq in H; subst; destruct x; reflexivity.
 Qed.
 
+Lemma ref_op_all x root p :
+  ref_op x "$all" root p =
+  match x with
+  | VArr [] => false
+  | VArr vs => some_unexpanded root p (fun a => forallb (fun v => existsb (fun c => req c v) (expand a)) vs)
+  | _ => false
+  end.
+Proof. destruct x; reflexivity. Qed.
+
+Definition not_array (v : value) : bool := match v with VArr _ => false | _ => true end.
+
+Lemma core_op_all full x root p :
+  core_op full x "$all" root p =
+  match x with
+  | VArr vs => negb (fans_out root p) && forallb not_array vs
+  | _ => false
+  end.
+Proof. destruct x; reflexivity. Qed.
+
 Lemma core_not_loop full root p l :
   (fix go (exps : list (string * value)) : bool :=
      match exps with
@@ -243,7 +262,7 @@ Qed.
 
 (* the operators of the covered domain *)
 Definition covered_ops : list string :=
-  rel_ops ++ ["$ne"; "$in"; "$nin"; "$exists"; "$type"; "$size"; "$mod"; "$not"] ++ bits_ops.
+  rel_ops ++ ["$ne"; "$in"; "$nin"; "$exists"; "$type"; "$size"; "$mod"; "$not"; "$all"] ++ bits_ops.
 
 Lemma core_op_covered x op root p :
   core_op false x op root p = true -> In op covered_ops.
@@ -252,15 +271,18 @@ Proof.
   destruct (existsb (String.eqb op) covered_ops) eqn:E.
   - apply existsb_exists in E. destruct E as [o [Hin Ho]]. apply String.eqb_eq in Ho. subst. exact Hin.
   - exfalso. unfold covered_ops, rel_ops, bits_ops in E. simpl in E.
-    repeat (apply orb_false_elim in E; destruct E as [? E]).
+    repeat match goal with
+           | E0 : _ || _ = false |- _ => apply orb_false_elim in E0; destruct E0
+           end.
     assert (Hrel : is_rel_op op = false).
-    { unfold is_rel_op, rel_ops. simpl. rewrite H0, H1, H2, H3, H4. reflexivity. }
+    { unfold is_rel_op, rel_ops. simpl.
+      repeat match goal with E0 : String.eqb op _ = false |- _ => rewrite E0 end. reflexivity. }
     assert (Hbits : is_bits_op op = false).
-    { unfold is_bits_op, bits_ops. simpl. rewrite H13, H14, H15, H16. reflexivity. }
-    destruct x; simpl in H;
-      rewrite ?Hrel, ?Hbits, ?H5, ?H6, ?H7, ?H8, ?H9, ?H10, ?H11, ?H12 in H; simpl in H;
-      try discriminate;
-      destruct (String.eqb op "$all"); try discriminate;
+    { unfold is_bits_op, bits_ops. simpl.
+      repeat match goal with E0 : String.eqb op _ = false |- _ => rewrite E0 end. reflexivity. }
+    destruct x; simpl in H; rewrite ?Hrel, ?Hbits in H;
+      repeat match goal with E0 : String.eqb op _ = false |- _ => rewrite E0 in H end;
+      simpl in H; try discriminate;
       destruct (String.eqb op "$elemMatch"); discriminate.
 Qed.
 
@@ -566,6 +588,104 @@ Section Leaf3.
 End Leaf3.
 
 (* ---------------------------------------------------------------- *)
+(* $all (no fan-out, operands that are not arrays) *)
+
+Lemma not_array_req a v : not_array v = true -> req (VArr a) v = false.
+Proof. intro H. unfold req, rel. destruct v; try discriminate; reflexivity. Qed.
+
+Lemma is_eq_sym a b : is_eq (compare a b) = is_eq (compare b a).
+Proof. rewrite (compare_antisym b a). destruct (compare b a); reflexivity. Qed.
+
+Lemma forallb_pointwise {A} (f g : A -> bool) l : (forall a, f a = g a) -> forallb f l = forallb g l.
+Proof. intro H. induction l as [|a l IH]; [reflexivity|]. simpl. rewrite H, IH. reflexivity. Qed.
+
+Lemma all_equiv vs y :
+  vs <> [] -> forallb not_array vs = true ->
+  (forall arr, y = VArr arr -> Forall (fun e => not_array e = true) arr) ->
+  existsb (fun field =>
+             (match field with
+              | VArr arr => forallb (fun value => existsb (fun element => is_eq (compare value element)) arr) vs
+              | _ => false
+              end) || forallb (fun item => is_eq (compare field item)) vs)
+          ((match y with VArr arr => arr | _ => [] end) ++ [y])
+  = forallb (fun v => existsb (fun c => req c v) (expand y)) vs.
+Proof.
+  intros Hne Hvs Hy.
+  destruct y as [| | ? | ? | ? | ? ? | ? | ? | arr | ? ? | ? | ? | ? | ? ? | ? ?];
+    try (simpl; rewrite orb_false_r; apply forallb_pointwise; intro v; rewrite orb_false_r; symmetry; apply req_compare).
+  specialize (Hy arr eq_refl).
+  rewrite existsb_app. cbn [existsb]. rewrite orb_false_r.
+  (* the array itself equals no (non-array) operand *)
+  assert (Hself : forallb (fun item => is_eq (compare (VArr arr) item)) vs = false).
+  { destruct vs as [|v vs]; [congruence|]. simpl in Hvs. apply andb_prop in Hvs. destruct Hvs as [Hv _].
+    pose proof (not_array_req arr v Hv) as Hr. rewrite req_compare in Hr.
+    cbn [forallb]. rewrite Hr. reflexivity. }
+  rewrite Hself, orb_false_r.
+  (* the reference side, without the array itself *)
+  assert (Href : forallb (fun v => existsb (fun c => req c v) (expand (VArr arr))) vs
+                 = forallb (fun value => existsb (fun element => is_eq (compare value element)) arr) vs).
+  { clear Hself Hne. induction vs as [|v vs IH]; [reflexivity|].
+    simpl in Hvs. apply andb_prop in Hvs. destruct Hvs as [Hv Hvs].
+    cbn [forallb]. rewrite (IH Hvs). f_equal. cbn [expand existsb]. rewrite (not_array_req arr v Hv). cbn [orb].
+    apply existsb_ext_in. intros e _. rewrite req_compare. apply is_eq_sym. }
+  rewrite Href.
+  (* an element equal to every operand makes the containment true *)
+  destruct (forallb (fun value => existsb (fun element => is_eq (compare value element)) arr) vs) eqn:Hc;
+    [apply orb_true_r|].
+  rewrite orb_false_r.
+  apply not_true_is_false. intro Hex. apply existsb_exists in Hex. destruct Hex as [e [Hin He]].
+  rewrite Forall_forall in Hy. specialize (Hy e Hin).
+  assert (Hge : forallb (fun item => is_eq (compare e item)) vs = true).
+  { destruct e; try discriminate Hy; simpl in He; exact He. }
+  assert (Hall : forallb (fun value => existsb (fun element => is_eq (compare value element)) arr) vs = true).
+  { apply forallb_forall. intros v Hv. apply existsb_exists. exists e. split; [exact Hin|].
+    rewrite forallb_forall in Hge. rewrite is_eq_sym. apply Hge. exact Hv. }
+  congruence.
+Qed.
+
+Lemma d1_arr_elems arr : d1 (VArr arr) = true -> Forall (fun e => not_array e = true) arr.
+Proof.
+  intro H. apply d1_arr in H. apply Forall_forall. intros e Hin.
+  rewrite Forall_forall in H. destruct (H e Hin) as [Hn _].
+  destruct e; try reflexivity. exfalso. eapply Hn. reflexivity.
+Qed.
+
+Lemma leaf_all d ps x :
+  d1 (VDoc d) = true -> good_path (split_path ps) = true ->
+  core_op false x "$all" (VDoc d) (split_path ps) = true ->
+  eval_op x "$all" d ps = Ok (ref_op x "$all" (VDoc d) (split_path ps)).
+Proof.
+  intros H1 Hg Hc. rewrite core_op_all in Hc. rewrite ref_op_all.
+  rewrite eval_op_eq. cbn [lookup_expr assoc expr_table String.eqb Ascii.eqb Bool.eqb].
+  destruct x as [| | ? | ? | ? | ? ? | ? | ? | vs | ? ? | ? | ? | ? | ? ? | ? ?]; try discriminate.
+  apply andb_prop in Hc. destruct Hc as [Hf Hvs]. apply negb_true_iff in Hf.
+  destruct (All_no_fan d ps Hg Hf) as [y [HA HR]].
+  unfold match_all.
+  destruct vs as [|v0 vs].
+  - rewrite (unwind_ok (fun _ => false)) by (intro c; reflexivity).
+    f_equal. induction (unwind_candidates d ps false true); [reflexivity|assumption].
+  - rewrite (unwind_ok (fun field =>
+               (match field with
+                | VArr arr => forallb (fun value => existsb (fun element => is_eq (compare value element)) arr) (v0 :: vs)
+                | _ => false
+                end) || forallb (fun item => is_eq (compare field item)) (v0 :: vs)))
+      by (intro c; reflexivity).
+    unfold unwind_candidates, some_unexpanded. rewrite HA, HR. simpl negb. simpl orb.
+    f_equal.
+    transitivity (forallb (fun v => existsb (fun c => req c v) (expand y)) (v0 :: vs));
+      [|cbn [existsb]; rewrite orb_false_r; reflexivity].
+    assert (Hy : forall arr, y = VArr arr -> Forall (fun e => not_array e = true) arr).
+    { intros arr ->. apply d1_arr_elems.
+      assert (G : get (VDoc d) (split_path ps) true false = (VArr arr, false)).
+      { specialize (HA false false). rewrite All_eq in HA.
+        destruct (get (VDoc d) (split_path ps) true false) as [v n].
+        destruct n; simpl in HA; [destruct v; discriminate|]. exact HA. }
+      exact (get_single_d1 _ _ _ _ H1 G). }
+    assert (Hne : v0 :: vs <> []) by discriminate.
+    exact (all_equiv (v0 :: vs) y Hne Hvs Hy).
+Qed.
+
+(* ---------------------------------------------------------------- *)
 (* all covered expression operators, by induction on the argument ($not) *)
 
 Lemma all_ops_forallb rop exps root p :
@@ -623,7 +743,7 @@ Section Ops.
     induction x as [x IHx] using value_ind'. intros op Hc.
     pose proof (core_op_covered x op root p Hc) as Hin.
     unfold covered_ops, rel_ops, bits_ops in Hin. simpl in Hin.
-    destruct Hin as [E|[E|[E|[E|[E|[E|[E|[E|[E|[E|[E|[E|[E|[E|[E|[E|[E|[]]]]]]]]]]]]]]]]]]; subst op.
+    destruct Hin as [E|[E|[E|[E|[E|[E|[E|[E|[E|[E|[E|[E|[E|[E|[E|[E|[E|[E|[]]]]]]]]]]]]]]]]]]]; subst op.
     - apply leaf_rel; auto.
     - apply leaf_rel; auto.
     - apply leaf_rel; auto.
@@ -648,6 +768,7 @@ Section Ops.
       rewrite (not_loop_negates d ps (e0 :: exps) Hkeys).
       rewrite (ops_loop_ref (e0 :: exps) IHx Hc).
       rewrite (forallb_drop_is_op _ _ Hkeys). reflexivity.
+    - apply leaf_all; auto.
     - apply leaf_bits; auto.
     - apply leaf_bits; auto.
     - apply leaf_bits; auto.
@@ -802,8 +923,8 @@ End Top.
 
 (* Covered: $and, $or, $nor, implicit and, literal equality, $eq, $gt, $gte,
    $lt, $lte, $ne, $in, $nin, $exists, $type, $size, $mod, $bitsAllSet,
-   $bitsAllClear, $bitsAnySet, $bitsAnyClear, $not.  Not covered by the proof
-   (tested only, family matchref): $all, $elemMatch.  Outside the domain:
+   $bitsAllClear, $bitsAnySet, $bitsAnyClear, $not, $all.  Not covered by the
+   proof (tested only, family matchref): $elemMatch.  Outside the domain:
    $jsonSchema. *)
 Theorem match_ref_partial d f :
   core_covered d f -> Match d f = Ok (RefMatch.holds d f).
